@@ -1,3 +1,4 @@
+import Snel.Gen.C14
 /-!
 # Materialised queries: REMEMBER / SHOW (C14)
 
@@ -106,6 +107,8 @@ structure Zone where
   tsMax : Nat
   createdAt : Nat
   mtime : Nat
+  /-- the segment (directory) the zone belongs to; zones of one segment share the `.zones` file -/
+  seg : Nat := 0
 deriving Repr
 
 /-- Memtable rows (active memtables and passive buffers whose segment is not readable yet), the
@@ -133,40 +136,74 @@ def dropZone (createdAt : Nat) (hwTs : Option Nat) (z : Zone) : Bool :=
 /-- `MaterializationGuard::file_definitely_stale`: `mtime < cutoff.saturating_sub(1)` with
 `cutoff = high_water_ts.unwrap_or(created_at)`. -/
 def fileStale (createdAt : Nat) (hwTs : Option Nat) (z : Zone) : Bool :=
-  decide (z.mtime < hwTs.getD createdAt - 1)
+  decide (z.mtime < hwTs.getD createdAt - Snel.Gen.C14.staleSlack)
 
-/-- Is the zone read by a query that carries materialisation metadata `guard`? -/
+/-- `MaterializationGuard::segment_fully_materialized` (`index_selector.rs`), the segment-level
+early exit of the delta query: the zone metas of the segment are non-empty and **every one of
+them** (`metas.iter().all(..)`) satisfies the drop rule. Zones of a segment are laid out in
+context-id order, not in time order, so no single zone bounds the others. -/
+def segFullyMaterialized (createdAt : Nat) (hwTs : Option Nat) (metas : List Zone) : Bool :=
+  !metas.isEmpty &&
+    (if Snel.Gen.C14.segmentGuardAllZones then metas.all (dropZone createdAt hwTs)
+     else (metas.getLast?.map (dropZone createdAt hwTs)).getD false)
+
+/-- The per-zone part: file not stale, zone not dropped by `MaterializationPruner`. -/
 def zoneKept (guard : Option (Nat × Option Nat)) (z : Zone) : Bool :=
   match guard with
   | none => true
   | some (c, h) => !fileStale c h z && !dropZone c h z
 
+/-- Is the zone read by a query that carries materialisation metadata `guard`? In the order of
+`IndexZoneSelector::select_for_segment`: stale file ⇒ nothing of the segment; segment fully
+materialised ⇒ nothing; else the pruner decides zone by zone. `all` = the zones of the store. -/
+def zoneRead (guard : Option (Nat × Option Nat)) (all : List Zone) (z : Zone) : Bool :=
+  match guard with
+  | none => true
+  | some (c, h) =>
+    !fileStale c h z && !segFullyMaterialized c h (all.filter (·.seg == z.seg)) && !dropZone c h z
+
 /-- Rows scanned: memtables always, zones unless dropped. -/
 def scanRows (s : Store) (guard : Option (Nat × Option Nat)) : List Ev :=
-  s.mem ++ s.passive ++ (s.zones.filter (zoneKept guard)).flatMap (·.rows)
+  s.mem ++ s.passive ++ (s.zones.filter (zoneRead guard s.zones)).flatMap (·.rows)
 
 /-- Result rows of `QUERY q` (guard `none`) or of the delta query of SHOW. -/
 def runQuery (s : Store) (q : Spec) (guard : Option (Nat × Option Nat)) : List Ev :=
   (scanRows s guard).filter q.matches
 
-/-- `ZoneMeta::build`: `timestamp_max` is the largest row timestamp. -/
-def mkZone (now : Nat) (rows : List Ev) : Zone :=
-  { rows, tsMax := maxOf (rows.map (·.ts)), createdAt := now, mtime := now }
+/-- Rows in context order (a flush drains the memtable per context, compaction merges by
+context id): insertion sort, stable. -/
+def insertByCtx (e : Ev) : List Ev → List Ev
+  | [] => [e]
+  | x :: l => if e.ctx ≤ x.ctx then e :: x :: l else x :: insertByCtx e l
 
-/-- Flush of one shard (zone boundaries abstracted to one zone per flush: results of every
-query in this file are independent of them, `Lemmas.Materialize.delta_filter_eq`). -/
+def sortByCtx : List Ev → List Ev
+  | [] => []
+  | e :: l => insertByCtx e (sortByCtx l)
+
+/-- The zones of one new segment: rows in context order, one zone per row (the finest layout the
+engine can produce, `event_per_zone = 1`; the results of every query in this file are proved
+independent of the zone boundaries, `Lemmas.Materialize.delta_filter_eq`).
+`ZoneMeta::build`: `timestamp_max` is the largest row timestamp of the zone. -/
+def zonesOf (now createdAt seg : Nat) (rows : List Ev) : List Zone :=
+  (sortByCtx rows).map fun r => { rows := [r], tsMax := r.ts, createdAt, mtime := now, seg }
+
+def Store.freshSeg (s : Store) : Nat := maxOf (s.zones.map (·.seg)) + 1
+
+/-- Flush of one shard: its memtable rows become the zones of a new segment. -/
 def Store.flush (s : Store) (shard now : Nat) : Store :=
   let mv := s.mem.filter (·.shard == shard)
   if mv.isEmpty then s else
-  { s with mem := s.mem.filter (fun e => !(e.shard == shard)), zones := s.zones ++ [mkZone now mv] }
+  { s with mem := s.mem.filter (fun e => !(e.shard == shard)),
+           zones := s.zones ++ zonesOf now now s.freshSeg mv }
 
-/-- The first half of a flush: the segment's files exist (its zone is read), the passive buffer
+/-- The first half of a flush: the segment's files exist (its zones are read), the passive buffer
 still holds the rows (`flush_worker.rs` between the points `flusher.zones_written` and
 `flush.passive_cleared`). -/
 def Store.flushBegin (s : Store) (shard now : Nat) : Store :=
   let mv := s.mem.filter (·.shard == shard)
   if mv.isEmpty then s else
-  { mem := s.mem.filter (fun e => !(e.shard == shard)), zones := s.zones ++ [mkZone now mv],
+  { mem := s.mem.filter (fun e => !(e.shard == shard)),
+    zones := s.zones ++ zonesOf now now s.freshSeg mv,
     passive := s.passive ++ mv }
 
 /-- The second half: the passive buffers are released. -/
@@ -184,20 +221,21 @@ def queryAnswer (s : Store) (q : Spec) : List Ev := dedupById (runQuery s q none
 /-- Rows of a zone all belong to `shard` (zones are per shard). -/
 def Zone.ofShard (z : Zone) (shard : Nat) : Bool := z.rows.all (·.shard == shard)
 
-/-- A compaction round on one shard, coarsely: the shard's zones are merged into one;
-`created_at` = max of the inputs (`zone_merger.rs`), `timestamp_max` recomputed, file new. -/
+/-- A compaction round on one shard, coarsely: the shard's zones are merged into one new
+segment, rows in context order; `created_at` = max of the inputs (`zone_merger.rs`),
+`timestamp_max` recomputed per zone, files new. -/
 def Store.compact (s : Store) (shard now : Nat) : Store :=
   let ins := s.zones.filter (·.ofShard shard)
   if ins.length < 2 then s else
-  let rows := ins.flatMap (·.rows)
   { s with
     zones := s.zones.filter (fun z => !z.ofShard shard) ++
-      [{ rows, tsMax := maxOf (rows.map (·.ts)), createdAt := maxOf (ins.map (·.createdAt)), mtime := now }] }
+      zonesOf now (maxOf (ins.map (·.createdAt))) s.freshSeg (ins.flatMap (·.rows)) }
 
-/-- Harness-only: every segment file gets the oldest modification time that is still truthful
-(the largest row timestamp in it), as if it had been written in that very second. -/
+/-- Harness-only: every segment's `.zones` file gets the oldest modification time that is still
+truthful (the largest `timestamp_max` of its zones), as if it had been written in that second. -/
 def Store.backdate (s : Store) : Store :=
-  { s with zones := s.zones.map fun z => { z with mtime := z.tsMax } }
+  { s with zones := s.zones.map fun z =>
+      { z with mtime := maxOf ((s.zones.filter (·.seg == z.seg)).map (·.tsMax)) } }
 
 /-! ## Catalog entry, REMEMBER, SHOW -/
 
